@@ -204,6 +204,12 @@ pub struct Report {
     pub failure_count: u64,
 }
 
+/// coarse shape of a case line (engine + operation): failures are capped per class AND shape so
+/// that a frequent shape cannot crowd out another one of the same class
+fn shape(case: &str) -> String {
+    case.split(' ').filter(|s| !s.is_empty()).take(2).collect::<Vec<_>>().join(" ")
+}
+
 fn hash_str(s: &str) -> u64 {
     let mut h = std::collections::hash_map::DefaultHasher::new();
     s.hash(&mut h);
@@ -226,11 +232,11 @@ impl Report {
         }
         self.failure_count += o.failure_count;
         for f in o.failures {
-            // keep at most 3 per (kind, class)
+            // keep at most 3 per (kind, class, case shape = first two fields of the case line)
             let n = self
                 .failures
                 .iter()
-                .filter(|g| g.kind == f.kind && g.class == f.class)
+                .filter(|g| g.kind == f.kind && g.class == f.class && shape(&g.case) == shape(&f.case))
                 .count();
             if n < 3 {
                 self.failures.push(f);
@@ -300,7 +306,7 @@ fn run_one(engine: &dyn Engine, model: &mut Option<Model>, case: &str, rep: &mut
         for f in rep.failures.drain(..) {
             if kept
                 .iter()
-                .filter(|g| g.kind == f.kind && g.class == f.class)
+                .filter(|g| g.kind == f.kind && g.class == f.class && shape(&g.case) == shape(&f.case))
                 .count()
                 < 3
             {
